@@ -13,7 +13,9 @@ package main
 // tasks.
 
 import (
+	"bytes"
 	"fmt"
+	"io"
 	"strings"
 	"unicode/utf8"
 
@@ -23,6 +25,12 @@ import (
 func init() {
 	opKinds["routes"] = execRoutes
 }
+
+// stringWriter also implements io.StringWriter: a library that goes
+// through io.WriteString would reach WriteString instead of Write.
+type stringWriter struct{ *simWriter }
+
+func (w *stringWriter) WriteString(s string) (int, error) { return w.Write([]byte(s)) }
 
 type wcase struct {
 	name string
@@ -153,6 +161,63 @@ func execRoutes(e *env, op *Op, out *Outcome) {
 		}
 		e.yield(ySession)
 	}
+
+	// ---- F route into destinations that a library might special-case -----------
+	{
+		type dest struct {
+			name string
+			w    io.Writer
+			got  func() (string, int) // text received, number of Write-like calls (-1: not observable)
+		}
+		var bb bytes.Buffer
+		w1, w2 := e.newWriter(nil), e.newWriter(nil)
+		sw := &stringWriter{simWriter: e.newWriter(nil)}
+		var dsb redact.StringBuilder
+		dests := []dest{
+			{"bytes.Buffer", &bb, func() (string, int) { return bb.String(), -1 }},
+			{"io.MultiWriter", io.MultiWriter(w1, w2), func() (string, int) {
+				if strings.Join(w1.seen, "") != strings.Join(w2.seen, "") {
+					return "<the two writers saw different bytes>", w1.calls
+				}
+				if w1.calls != w2.calls {
+					return strings.Join(w1.seen, ""), -2
+				}
+				return strings.Join(w1.seen, ""), w1.calls
+			}},
+			{"io.StringWriter", sw, func() (string, int) { return strings.Join(sw.seen, ""), sw.calls }},
+			{"*StringBuilder", &dsb, nil},
+		}
+		for _, d := range dests {
+			var n int
+			var err error
+			func() {
+				defer func() {
+					if r := recover(); r != nil {
+						fail("call-panicked", "F/"+d.name, fmt.Sprint(r))
+					}
+				}()
+				if printf {
+					n, err = redact.Fprintf(d.w, string(op.F), e.buildAll(op.A)...)
+				} else {
+					n, err = redact.Fprint(d.w, e.buildAll(op.A)...)
+				}
+			}()
+			count("F", d.name)
+			if n != len(S.Out) || err != nil {
+				fail("n-err-not-the-writers", "F/"+d.name, fmt.Sprintf("returned (n=%d, err=%v), the destination accepted all %d bytes", n, err, len(S.Out)))
+			}
+			if d.got != nil {
+				text, calls := d.got()
+				if text != S.Out {
+					fail("F-differs-from-S", "F/"+d.name, fmt.Sprintf("the destination received %q, the S result is %q", clip(text), clip(S.Out)))
+				}
+				if calls >= 0 && calls != 1 || calls == -2 {
+					fail("not-a-single-write", "F/"+d.name, fmt.Sprintf("the destination saw %d write calls, want exactly 1", calls))
+				}
+			}
+		}
+	}
+	e.yield(ySession)
 
 	// ---- builder route ---------------------------------------------------------
 	d0op := Op{K: "builder", S: withDst()}
